@@ -409,6 +409,33 @@ func execute(sc Script, rep *kit.Report) error {
 			return kit.Fail(K+"value-not-view", "%s: view [%d,%d) holds model samples at %v but the step returned %d samples %s (want %d); previous view [%d,%d) after %q",
 				where, int64(view.Start), int64(view.End), wantTS, len(got), hexs(got), len(want), int64(prevView.Start), int64(prevView.End), prevKind)
 		}
+		// series metadata (observed next to the samples): every returned series carries a time
+		// range inside the view, series are ordered and do not overlap in time, every sample
+		// lies inside the time range of the series that carries it (alignments are not asserted:
+		// the statement does not speak about them)
+		{
+			k := 0
+			var prevTR telem.TimeRange
+			for si, sr := range it.Value().SeriesSlice() {
+				n := int(sr.Len())
+				if sr.TimeRange.End < sr.TimeRange.Start || sr.TimeRange.Start < view.Start || sr.TimeRange.End > view.End {
+					return kit.Fail(K+"series-time-range-outside-view", "%s: series %d has time range [%d,%d), view is [%d,%d)", where, si, int64(sr.TimeRange.Start), int64(sr.TimeRange.End), int64(view.Start), int64(view.End))
+				}
+				if si > 0 && sr.TimeRange.Start < prevTR.End {
+					return kit.Fail(K+"series-time-ranges-overlap", "%s: series %d [%d,%d) starts before the end of series %d [%d,%d)", where, si, int64(sr.TimeRange.Start), int64(sr.TimeRange.End), si-1, int64(prevTR.Start), int64(prevTR.End))
+				}
+				for j := 0; j < n && k+j < len(wantTS); j++ {
+					if ts := telem.TimeStamp(wantTS[k+j]); ts < sr.TimeRange.Start || ts >= sr.TimeRange.End {
+						return kit.Fail(K+"sample-outside-series-time-range", "%s: series %d [%d,%d) carries the sample stamped %d", where, si, int64(sr.TimeRange.Start), int64(sr.TimeRange.End), wantTS[k+j])
+					}
+				}
+				k += n
+				prevTR = sr.TimeRange
+			}
+			if k == len(wantTS) && k > 0 {
+				rep.Class("series-metadata-checked")
+			}
+		}
 		if isStep {
 			if ok != (len(want) > 0) {
 				return kit.Fail(K+"valid-mismatch", "%s: step returned %v but view [%d,%d) holds %d samples", where, ok, int64(view.Start), int64(view.End), len(want))
